@@ -936,6 +936,8 @@ GUARD_SITES = [
      {'np.any(np.iscomplex(x))': ('xComplex', 'bool')}),
     ('core.py', 'Derivative', '_raise_error_if_any_is_complex', 1, 'guard_real_fx', [('fComplex', 'bool')],
      {'np.any(np.iscomplex(f_x))': ('fComplex', 'bool')}),
+    ('core.py', 'Derivative', '_get_steps', 0, 'guard_some_steps', [('numSteps', 'nat')],
+     {'len(steps)': ('numSteps', 'nat')}),
     ('core.py', None, 'directionaldiff', 0, 'guard_directionaldiff', [('x0Size', 'nat'), ('vecSize', 'nat')],
      {'x0.size': ('x0Size', 'nat'), 'vec.size': ('vecSize', 'nat')}),
     ('finite_difference.py', 'LogRule', '_vstack', 0, 'guard_vstack', [('fdelSize', 'nat'), ('hSize', 'nat')],
